@@ -1,7 +1,8 @@
 #!/bin/bash
 # Runs the pinned baseline suite (guard off) and compares with /root/.vp/BASELINE.json stable_pass.
 out=$(mktemp /tmp/junit.XXXXXX.xml)
-cd /repo && env -u PROV_VERIF /venv/bin/python -m pytest -ra -q -p no:cacheprovider --timeout=900 --continue-on-collection-errors --junitxml=$out >/tmp/baseline.log 2>&1
+R=${REPO_DIR:-/repo}
+cd $R && env -u PROV_VERIF PYTHONPATH=$R/src /venv/bin/python -m pytest -ra -q -p no:cacheprovider --timeout=900 --continue-on-collection-errors --junitxml=$out >/tmp/baseline.log 2>&1
 /venv/bin/python - "$out" <<'PY'
 import json, sys, xml.etree.ElementTree as ET
 base = json.load(open('/root/.vp/BASELINE.json'))
